@@ -45,6 +45,16 @@ tags: income
 [Matched]
 match: any(r.amount == txn.amount for r in orders)
 tags: matched
+
+[Split]
+match: contains("SPLIT") and amount > 1000
+category: Shopping
+subcategory: Wholesale
+
+[Split]
+match: contains("SPLIT")
+category: Food
+subcategory: Grocery
 '''
 CSV_TEXT = '''Pattern,Merchant,Category,Subcategory,Tags
 ALFA,Alfa,Food,Grocery,ta
@@ -56,7 +66,7 @@ CURRENCY = {'absent': '${amount}', 'usd': '${amount}', 'eur': '\u20ac{amount}', 
 WARNING_TEXT = {'invalid-rule-mode': 'Invalid rule_mode', 'merchants-file-not-found': 'Merchants file not found',
                 'views-file-not-found': 'Views file not found', 'views-error': 'Error loading views'}
 VIEWS_TEXT = '[Food]\nfilter: category == "Food"\n\n[Costly]\nfilter: total > 1000\n'
-RULE_NAMES = {1: 'Alfa', 2: 'Alfa Big', 3: 'Refunds', 4: 'Payroll', 5: 'Matched', 6: 'Wallet'}
+RULE_NAMES = {1: 'Alfa', 2: 'Alfa Big', 3: 'Refunds', 4: 'Payroll', 5: 'Matched', 6: 'Wallet', 7: 'Split', 8: 'Split'}
 TABLES = {'f1': [('d1', 'A', 'p1250'), ('bad30', 'A', 'p1250'), ('d2', 'Bp', 'm3'), ('d1', 'A', 'thou'), ('d2', 'pay', 'big'),
                  ('d1', 'apA', 'p1250'), ('d2', 'apX', 'plus7')],
           'f2': [('i1', 'A', 'p1250'), ('i2', 'Bp', 'paren3'), ('i1', 'uni', 'zero'), ('i2', 'A', 'thou'),
@@ -64,16 +74,20 @@ TABLES = {'f1': [('d1', 'A', 'p1250'), ('bad30', 'A', 'p1250'), ('d2', 'Bp', 'm3
 DELIM = {'comma': ',', 'semicolon': ';', 'tab': 'tab'}
 
 
-def table_for(layout):
-    rows = TABLES['f2' if layout == 'L2' else 'f1']
+SPLIT_ROWS = {'f1': [('d2', 'spl', 'thou'), ('d1', 'spl', 'p1250')], 'f2': [('i2', 'spl', 'thou'), ('i1', 'spl', 'p1250')]}
+
+
+def table_for(layout, split=False):
+    k = 'f2' if layout == 'L2' else 'f1'
+    rows = TABLES[k] + (SPLIT_ROWS[k] if split else [])
     return [{'date': d, 'desc': x, 'cap2': 'k', 'amt': a, 'loc': 'loc', 'extra': 'k', 'shape': 'ok'} for d, x, a in rows]
 
 
 def materialise_budget(root, b, rnd):
     files = {}
     srcs = []
-    for s in b['sources']:
-        fn = 'data/%s.csv' % s['name'].lower()
+    for si, s in enumerate(b['sources']):
+        fn = 'data/%s%d.csv' % (s['name'].lower(), si + 1)        # two sources may have the same name: one file each
         delim = DELIM[s['delim']]
         # "the amounts of this source are negated" has two spellings: {-amount} in the format string, or negate_amount: true
         negkey = s['sign'] == 'negate' and b.get('_negkey')
@@ -90,7 +104,7 @@ def materialise_budget(root, b, rnd):
         srcs.append('\n'.join(lines))
         if s['status'] == 'present':
             import csv as _csv
-            files[fn] = RC.render(table_for(s['layout']), s['layout'], s['dec'], delim, s['header'], _csv.QUOTE_MINIMAL, '\n')
+            files[fn] = RC.render(table_for(s['layout'], b.get('split', False)), s['layout'], s['dec'], delim, s['header'], _csv.QUOTE_MINIMAL, '\n')
     if b['supp']:
         srcs.append('  - name: orders\n    file: data/orders.csv\n    format: "{date:%m/%d/%Y},{item},{amount}"\n    columns:\n      description: "{item}"\n    supplemental: true')
         files['data/orders.csv'] = 'Date,Item,Amount\n01/04/2025,Widget,12.50\n01/09/2025,Gadget,"1,234.56"\n'
@@ -130,7 +144,8 @@ def expected(b, rep):
         cents = t['cents']
         eff = abs(cents) if ('income' in tags or 'investment' in tags) else cents
         d = t['date']
-        cat, sub = t['cat'], t['sub']
+        # the report shows the classification of the MERCHANT (its last transaction), not of each transaction
+        cat, sub = (t['shown']['cat'], t['shown']['sub']) if 'shown' in t else (t['cat'], t['sub'])
         txns.append({'source': t['src'], 'description': RC.TEXTS[t['desc']][1], 'amount': eff / 100.0, 'month': '%04d-%02d' % (d[0], d[1]),
                      'tags': tags, 'category': cat, 'subcategory': sub if cat != 'Unknown' else 'Unknown',
                      'merchant': RULE_NAMES[t['rule']] if t['rule'] else None})
@@ -250,7 +265,7 @@ def walk_worker(item):
             # metamorphic on the real outputs: a step that changed one source left the others' transactions alone
             if len(pb['sources']) == len(b['sources']) and pb['rules'] == b['rules'] and pb['mode'] == b['mode'] and pb['supp'] == b['supp'] and pb.get('xform') == b.get('xform'):
                 changed = [i for i in range(len(b['sources'])) if pb['sources'][i] != b['sources'][i]]
-                if len(changed) == 1:
+                if len(changed) == 1 and len({s['name'] for s in b['sources']}) == len(b['sources']):
                     for s in b['sources']:
                         if s['name'] != b['sources'][changed[0]]['name'] and sorted(pobs.get(s['name'], [])) != sorted(obs_by_src.get(s['name'], [])) \
                                 and pobs and obs_by_src:
@@ -370,8 +385,8 @@ def run(ck):
     ck.assumptions += ['fixed rule set (categorising, more-specific categorising, tag-only, income, supplemental-referencing) and two small '
                        'statement tables per date format; budgets differ in settings only',
                        'rule_mode applies to .rules files; legacy CSV rule files are always first-match',
-                       'every merchant of the universe carries one (category, subcategory): the report groups transactions by merchant '
-                       'and shows the merchant\'s classification, not a per-transaction one',
+                       'the report groups transactions by merchant and shows ONE classification per merchant: Pipeline!Shown (the '
+                       'merchant\'s last transaction in processing order) is what is compared',
                        'per-transaction comparison through the data embedded in the HTML report (decoded by html.parser + json)']
     ck.expect_model_violation('MC_Pipeline/neg', tlc.run('MC_Pipeline', 'MC_Pipeline_neg.cfg'), 'Neg_ModeNeverMatters')
     ck.expect_model_ok('MC_Pipeline', tlc.run('MC_Pipeline', 'MC_Pipeline.cfg'))
@@ -427,7 +442,7 @@ def run(ck):
                 seen_settings.add((s['layout'], s['sign'], s['dec'], s['header'], s['delim'], s['status']))
             for clause, detail in diffs:
                 ck.violation(signature(b, clause), {'budget': b, 'settings_yaml': raw.get('settings'), 'detail': detail, 'raw': {k: v for k, v in raw.items() if k != 'settings'}},
-                             '`tally up` on budget %s: %s' % (json.dumps({k: b.get(k) for k in ('rules', 'mode', 'supp', 'views', 'xform', 'cur', 'modeBogus', 'mfMissing', 'vf', 'year', 'out')}), detail))
+                             '`tally up` on budget %s: %s' % (json.dumps({k: b.get(k) for k in ('rules', 'mode', 'supp', 'views', 'xform', 'cur', 'modeBogus', 'mfMissing', 'vf', 'year', 'out', 'split')}), detail))
     ck.extra['distinct_source_settings_exercised'] = len(seen_settings)
     ck.sample({'budget': walks[0][1] and plain(walks[0][1][-1]['b'])})
     ck.extra['rule'] = ('all 2304 settings records of Config.tla against the real load_config and `tally diag` (findings compared with Config!Diag); TLC -simulate walks over MC_Pipeline (each step changes one setting of one source - layout, sign mode, decimal separator, '
